@@ -226,6 +226,30 @@ class Ctx:
         self.cov.setdefault("stage_wall_s", {})[label] = round(time.time() - t, 2)
         return summary, diffs, oracle, known
 
+    def crash_probe(self, harness_cmd, label, start_re=r"^(H|LV|CASE|case)\b", env=None, max_lines=40):
+        """After a harness death: run the harness alone, unbuffered, and report the records of the last case it began as the
+        failing input (the operation sequence on which the real code crashed)."""
+        e = dict(os.environ)
+        e["VERIF_SEED"] = str(self.seed)
+        e.setdefault("OMP_NUM_THREADS", "4")
+        e["VERIF_UNBUFFERED"] = "1"
+        if env:
+            e.update(env)
+        r = subprocess.run(harness_cmd, stdout=subprocess.PIPE, stderr=subprocess.PIPE, env=e)
+        if r.returncode == 0:
+            return False
+        lines = r.stdout.decode(errors="replace").splitlines()
+        start = 0
+        for i, l in enumerate(lines):
+            if re.match(start_re, l):
+                start = i
+        seq = [l[:300] for l in lines[start:]][-max_lines:]
+        self.failing.append({"stage": label, "seed": self.seed, "cmd": "VERIF_UNBUFFERED=1 " + " ".join(harness_cmd),
+                             "what": f"ORACLE {self.prop} the real code died (exit status {r.returncode}) while executing the last record of this "
+                                     f"sequence: " + " ; ".join(seq),
+                             "stderr": r.stderr.decode(errors="replace")[-600:]})
+        return True
+
     # ---------------------------------------------------------------- reporting
     def finish(self, level="proof", rule="", technique_note=""):
         known_cfg = load_known()
